@@ -77,6 +77,9 @@ type FrameCut struct {
 	Dir   Dir
 	Frame int
 	Where Where
+	// DataOnly: Frame counts data frames (text, binary, continuation) only, so that ping and
+	// pong frames travelling in the same direction do not shift the target
+	DataOnly bool
 }
 
 // tracker follows the WebSocket framing of one direction incrementally.
@@ -86,13 +89,14 @@ type tracker struct {
 	hdr     []byte // header bytes of the frame being started
 	remain  int    // payload bytes still to come in the current frame
 	frames  int    // frames whose header has been completed
+	dframes int    // data frames among them
 	off     int    // absolute offset of the next byte
 	started int    // absolute offset where the current frame started
 }
 
-// feed consumes p and calls onFrame(index, start, headerLen, payloadLen) for each frame whose
-// header completes inside p.
-func (t *tracker) feed(p []byte, onFrame func(idx, start, hlen, plen int)) {
+// feed consumes p and calls onFrame(index, index among data frames or -1, start, headerLen,
+// payloadLen) for each frame whose header completes inside p.
+func (t *tracker) feed(p []byte, onFrame func(idx, didx, start, hlen, plen int)) {
 	for len(p) > 0 {
 		if !t.hsDone {
 			t.hs = append(t.hs, p[0])
@@ -122,7 +126,12 @@ func (t *tracker) feed(p []byte, onFrame func(idx, start, hlen, plen int)) {
 		p = p[1:]
 		t.off++
 		if hl, pl, ok := parseHeader(t.hdr); ok {
-			onFrame(t.frames, t.started, hl, pl)
+			didx := -1
+			if t.hdr[0]&0x08 == 0 { // opcodes 0..7 are data frames, 8..15 control frames
+				didx = t.dframes
+				t.dframes++
+			}
+			onFrame(t.frames, didx, t.started, hl, pl)
 			t.frames++
 			t.remain = pl
 			t.hdr = nil
@@ -509,8 +518,11 @@ func (c *Conn) Write(p []byte) (int, error) {
 	if lk.closed[1-c.end] {
 		return 0, &net.OpError{Op: "write", Net: "vnet", Err: errors.New("broken pipe")}
 	}
-	lk.trk[d].feed(p, func(idx, start, hlen, plen int) {
+	lk.trk[d].feed(p, func(idx, didx, start, hlen, plen int) {
 		fc := lk.fcut
+		if fc != nil && fc.DataOnly {
+			idx = didx
+		}
 		if fc == nil || fc.Dir != d || fc.Frame != idx || lk.cut != nil {
 			return
 		}
